@@ -105,8 +105,9 @@ func countPoints(g orb.Geometry) int {
 type layouter struct {
 	mode string
 	gd   *guard
-	buf  []orb.Point // shared mode: the one backing buffer
+	buf  []orb.Point // shared / alias mode: the one backing buffer
 	off  int
+	offs []int // alias mode: window start of every point slice, in traversal order
 }
 
 func describePts(ps []orb.Point) string {
@@ -120,6 +121,11 @@ func describePts(ps []orb.Point) string {
 func (l *layouter) pts(ps []orb.Point) []orb.Point {
 	if ps == nil {
 		return nil
+	}
+	if l.mode == "alias" {
+		off := l.offs[0]
+		l.offs = l.offs[1:]
+		return l.buf[off : off+len(ps)]
 	}
 	if l.mode == "shared" {
 		w := l.buf[l.off : l.off+len(ps)] // cap runs to the end of the buffer: len < cap
@@ -207,22 +213,103 @@ func (l *layouter) polygon(p orb.Polygon) orb.Polygon {
 // layOut returns a copy of g in the named layout and the guard watching its
 // memory ("" and "plain": the harness deep copy, no guard beyond the elements).
 func layOut(g orb.Geometry, mode string) (orb.Geometry, *guard) {
-	if mode != "shared" && mode != "spare" {
+	if mode == "alias" && countPoints(g) > 4096 {
+		mode = "shared"
+	}
+	if mode != "shared" && mode != "spare" && mode != "alias" {
 		return gen.DeepCopy(g), nil
 	}
 	l := &layouter{mode: mode, gd: &guard{}}
-	if mode == "shared" {
+	switch mode {
+	case "shared":
 		n := countPoints(g)
 		l.buf = make([]orb.Point, n+3)
 		for i := range l.buf {
 			l.buf[i] = sentinelPt
 		}
+	case "alias":
+		// members that have the same content, or whose content is a window of what
+		// was laid out before them, SHARE that memory: the same slice twice, equal
+		// start with different lengths, overlapping windows, a prefix of a sibling
+		var pool []orb.Point
+		walkSlices(g, func(ps []orb.Point) {
+			off := findWindow(pool, ps)
+			if off < 0 {
+				off = len(pool)
+				pool = append(pool, ps...)
+			}
+			l.offs = append(l.offs, off)
+		})
+		l.buf = make([]orb.Point, len(pool)+3)
+		copy(l.buf, pool)
+		for i := len(pool); i < len(l.buf); i++ {
+			l.buf[i] = sentinelPt
+		}
 	}
 	out := l.geom(g)
-	if mode == "shared" {
+	if mode == "shared" || mode == "alias" {
 		l.gd.watch(l.buf) // after the windows were filled
 	}
 	return out, l.gd
+}
+
+func samePt(a, b orb.Point) bool {
+	return math.Float64bits(a[0]) == math.Float64bits(b[0]) && math.Float64bits(a[1]) == math.Float64bits(b[1])
+}
+
+// findWindow: start of the first window of pool that equals ps bit for bit (-1: none).
+func findWindow(pool, ps []orb.Point) int {
+	if len(ps) == 0 {
+		return 0
+	}
+	for off := 0; off+len(ps) <= len(pool); off++ {
+		ok := true
+		for i := range ps {
+			if !samePt(pool[off+i], ps[i]) {
+				ok = false
+				break
+			}
+		}
+		if ok {
+			return off
+		}
+	}
+	return -1
+}
+
+// walkSlices visits the non-nil point slices of g in the order layouter.geom lays them out.
+func walkSlices(g orb.Geometry, f func(ps []orb.Point)) {
+	visit := func(ps []orb.Point) {
+		if ps != nil {
+			f(ps)
+		}
+	}
+	switch v := g.(type) {
+	case orb.MultiPoint:
+		visit(v)
+	case orb.LineString:
+		visit(v)
+	case orb.Ring:
+		visit(v)
+	case orb.MultiLineString:
+		for _, l := range v {
+			visit(l)
+		}
+	case orb.Polygon:
+		for _, r := range v {
+			visit(r)
+		}
+	case orb.MultiPolygon:
+		for _, p := range v {
+			for _, r := range p {
+				visit(r)
+			}
+		}
+	case orb.Collection:
+		for _, m := range v {
+			walkSlices(m, f)
+		}
+	}
 }
 
 // unclose drops the closing vertex of every closed ring of g (the "unclosed
